@@ -128,6 +128,11 @@ def check_slow_path_guard(ctx, db, config, RULE='O7'):
         ctx.floor(RULE, n7, 1, 'call sites of the chunk-acquiring slow path')
 
 
+def runner_sub(ctx, rule, origin):
+    from .. import runner
+    return runner.Sub(ctx, rule, origin)
+
+
 def run(ctx, config='rel-all'):
     A = arena.analyse(ctx, config)
     db = ctx.db(config)
@@ -358,6 +363,44 @@ def run(ctx, config='rel-all'):
         else:
             ctx.violation('O9', 'Bump::min_align', 'return', 'min_align() returns %s' % show(r.ret)[:60], b.get('span'))
     ctx.floor('O9', n9, 6, 'constructor / accessor glue of Bump')
+    # ---- O10 iterator-driven growth reserves the LOWER bound of the size hint (the upper bound of a filtered source is the size
+    # of the source, not of what arrives: reserving it makes the space held unrelated to the space used, and makes a vector
+    # whose spare capacity would have sufficed move)
+    if config != 'rel-default':
+        n10 = 0
+        for b in db.fn_bodies():
+            mm = b['meta']
+            adt = mm.get('impl_adt') or ''
+            if b['kind'] != 'assoc_fn' or not any(adt.endswith(x) for x in ('vec::Vec', 'string::String', 'vec::Splice', 'vec::Drain', 'boxed::Box')):
+                continue
+            if not any((t.get('callee') or {}).get('path', '').endswith('::size_hint') for blk in b['blocks'] for t in [blk['term']] if t['k'] == 'call'):
+                continue
+            J, r = arena.run_fn(ctx, b['id'], config)
+            for e in r.events:
+                if e.kind != 'call' or not e.is_own() or not e.callee:
+                    continue
+                nm = e.callee.split('::')[-1]
+                if nm not in ('reserve', 'reserve_exact', 'move_tail', 'try_reserve', 'try_reserve_exact') or not e.args:
+                    continue
+                amt = e.args[-1]
+                hints = [x for x in subterms(amt) if isinstance(x, tuple) and x and x[0] == 'call' and x[1].endswith('::size_hint')]
+                if not hints:
+                    continue
+                n10 += 1
+                upper = [x for x in subterms(amt) if isinstance(x, tuple) and x[:2] == ('app', 'proj') and x[3].endswith('.1') and x[2] in hints]
+                lower = [x for x in subterms(amt) if isinstance(x, tuple) and x[:2] == ('app', 'proj') and x[3].endswith('.0') and x[2] in hints]
+                fn = arena.short(b['id'])
+                if upper or not lower:
+                    ctx.violation('O10', fn, 'reserve-upper-bound', '%s sizes its reservation from the size hint as %s: only the lower bound may be reserved (an upper bound is unrelated to the number of elements that arrive)' % (fn, show(amt)[:100]), e.span)
+                else:
+                    ctx.ok('O10', '%s reserves from the lower bound of the size hint only' % fn, show(amt)[:80])
+        ctx.floor('O10', n10, 3, 'size-hint driven reservations in the collections')
+    # ---- R10 the headroom the slow path compares candidates against is limit - allocated_bytes: the counter must be exact
+    # on every store (C08.O1), or candidates that fit are refused and the chunk sequence stops doubling
+    from . import c08
+    fsz = arena.ArenaInterp(db).size_of('ChunkFooter')
+    if is_c(fsz):
+        c08.check_j4(runner_sub(ctx, 'R10', 'C08'), A, db, fsz, 'O1')
     # ---- R5 capacities
     if config != 'rel-default':
         for path, nav in (("collections::raw_vec::RawVec::<'a, T>::with_capacity_in", ()), ("collections::vec::Vec::<'bump, T>::with_capacity_in", ('buf',)), ("collections::string::String::<'bump>::with_capacity_in", ('vec', 'buf'))):
